@@ -33,6 +33,12 @@ class FamilyB:
         @R(r"^LexedStr::<'_>::new$")
         def _lexed_new(ex, c, a):
             fam.calls["lex"] += 1
+            # C02: what is lexed (and therefore what the tree spells) is the whole input text, not a part or a copy of it
+            want = fam.cfg.get("input")
+            if want is not None:
+                sl = strmodel.as_slice(a[0])
+                if not (sl.s is want.s and sl.lo == want.lo and sl.hi == want.hi):
+                    raise Violation(f"the text handed to the lexer is not the input text (chars {sl.lo}..{sl.hi} of {want.hi}): the tree cannot spell the input")
             return fam.cfg["lexed"]
 
         @R(r"^oq3_parser::shortcuts::<impl LexedStr<'_>>::to_input$|^LexedStr::<'_>::to_input$")
@@ -119,13 +125,18 @@ class GateBHarness:
             errs.append([f"lexical error {i}", k])
             toks.append(k)
         lexed = ["abc", VecV([K["IDENT"]] * ntok + [K["EOF"]]), VecV(list(range(ntok + 1))), VecV(errs)]
-        fam.cfg.update({"lexed": lexed, "p": p, "v": v})
+        # the input: three symbolic code points (any Unicode scalar value, e.g. a byte order mark)
+        chars = [strmodel.fresh_char(f"in{i}") for i in range(3)]
+        for ch in chars:
+            ex.add_constraint(strmodel.char_domain(ch))
+        text = strmodel.StrSlice(strmodel.SymStr(chars, "INPUT"), 0, 3)
+        fam.cfg.update({"lexed": lexed, "p": p, "v": v, "input": text})
         fam.calls.clear()
         if which == "text":
-            r = ex.run(fam.f_ptcl, ["abc"])
+            r = ex.run(fam.f_ptcl, [text])
             green, errors = r[0], r[1]
         else:
-            r = ex.run(fam.f_pcl, ["abc"])
+            r = ex.run(fam.f_pcl, [text])
             green, errors = r[0], r[1]
         while isinstance(errors, Ref):
             errors = errors.get()
